@@ -130,9 +130,14 @@ def corrupt_strings(draw):
     hops = [[draw(port_ids), draw(links)] for _ in range(nseg)]
     seps = draw(st.lists(st.sampled_from(SEPS), min_size=1, max_size=8))
     port = draw(tcp_ports)
-    kind = draw(st.sampled_from(["odd-drop", "odd-dup", "port-name", "link-range", "link-quad", "tcp-port", "tcp-port", "digits"]))
+    kind = draw(st.sampled_from(["odd-drop", "odd-dup", "port-name", "link-range", "link-quad", "tcp-port", "tcp-port", "digits", "shortcut-not-slot"]))
     flat = [x for h in hops for x in h]
-    if kind == "odd-drop":
+    if kind == "shortcut-not-slot":
+        # the address/slot shortcut of the Logix and SLC drivers takes a slot number: one segment that is an address, a port name
+        # or a separator-less remainder of a longer route ('1.2.3.4/210.0.0.5') is an odd number of route segments
+        auto = True
+        flat = [draw(st.one_of(ipv4, st.sampled_from(["bp", "backplane", "enet", "210.0.0.5", "1.2.3", "slot", "a", "2x"])))]
+    elif kind == "odd-drop":
         i = draw(st.integers(0, len(flat) - 1))
         flat = flat[:i] + flat[i + 1:]
         if auto and len(flat) <= 1:
